@@ -9,7 +9,9 @@ Record tap_rank := mkTap {
   tS : pkg;                        (* local_S_par_comm (3-step only) *)
   tG : pkg;                        (* global_par_comm *)
   tR : pkg; tR_pos : list nat;     (* local_R_par_comm and the final buffer positions of its receive slots *)
-  t_size : nat                     (* recv_size = number of off-process columns *)
+  t_size : nat;                    (* recv_size = number of off-process columns *)
+  tS_dup : list (list nat);        (* DuplicateData of local_S's receive side: per slot, positions of the next stage's buffer *)
+  tG_dup : list (list nat)         (* DuplicateData of global's receive side *)
 }.
 Record tap_world := mkTapW { three_step : bool; t_ranks : list tap_rank }.
 
@@ -33,7 +35,7 @@ Definition all_ranks {X} (tw : tap_world) (f : nat -> X) : list X := map f (seq 
 Definition tap_forward (tw : tap_world) (xs : list (list A)) (p : nat) : list A :=
   let rk := t_ranks tw in
   let wL := map tL rk in let wS := map tS rk in let wG := map tG rk in let wR := map tR rk in
-  let me := nth p rk (mkTap nopkg [] nopkg nopkg nopkg [] 0) in
+  let me := nth p rk (mkTap nopkg [] nopkg nopkg nopkg [] 0 [] []) in
   let bL := forward d wL xs p in
   let src := if three_step tw then all_ranks tw (fun q => forward d wS xs q) else xs in
   let bG := all_ranks tw (fun q => forward d wG src q) in
@@ -46,3 +48,56 @@ Arguments upd_at {A}. Arguments scatter {A}. Arguments tap_forward {A}.
 (* the check: exchanging the global ids through the four packages reproduces every column map *)
 Definition tap_fwd_ok (tw : tap_world) (ids colmaps : list (list nat)) (big : nat) : bool :=
   forallb (fun p => nat_list_eqb (tap_forward big tw ids p) (nth p colmaps [])) (seq 0 (length (t_ranks tw))).
+
+(* ---------- transpose (reverse) exchange of the node-aware package: TAPComm::initialize_T + complete_T ---------- *)
+Section Reverse.
+Variable A : Type.
+Variable d : A.
+Variable f0 : A -> A -> A.     (* init_result_func: combines duplicates before they leave a node *)
+Variable v0 : A.               (* init_result_func_val *)
+
+(* the sender-side buffer after a transposed ParComm exchange: q receives, per send message, the segment that
+   the destination p holds for q (contiguous layout, ContigData / packed NonContigData / DuplicateData::send) *)
+Definition rev_buf (w : world) (packed : list (list A)) (q : nat) : list A :=
+  flat_map (fun m => fit d (length (snd m)) (seg w packed (fst m) q)) (send_msgs (pk w q)).
+(* NonContigData::send on a receive side: pack values at the recorded positions *)
+Definition pack_pos (vals : list A) (pos : list nat) : list A := map (fun i => nth i vals d) pos.
+(* DuplicateData::send: every slot carries the combination of all duplicates routed through it *)
+Definition dup_combine (dup : list (list nat)) (buf : list A) : list A :=
+  map (fun ks => fold_left (fun t k => f0 t (nth k buf d)) ks v0) dup.
+
+Variable B : Type.
+Variable f : B -> A -> B.      (* result_func *)
+
+Definition tap_reverse (tw : tap_world) (vals : list (list A)) (init : list B) (q : nat) : list B :=
+  let rk := t_ranks tw in
+  let dflt := mkTap nopkg [] nopkg nopkg nopkg [] 0 [] [] in
+  let wL := map tL rk in let wS := map tS rk in let wG := map tG rk in let wR := map tR rk in
+  let packL := all_ranks tw (fun p => pack_pos (nth p vals []) (tL_pos (nth p rk dflt))) in
+  let packR := all_ranks tw (fun p => pack_pos (nth p vals []) (tR_pos (nth p rk dflt))) in
+  let Lsend := rev_buf wL packL q in
+  let Rsend := all_ranks tw (fun p => rev_buf wR packR p) in
+  let Gpack := all_ranks tw (fun p => dup_combine (tG_dup (nth p rk dflt)) (nth p Rsend [])) in
+  let Gsend := all_ranks tw (fun p => rev_buf wG Gpack p) in
+  let me := nth q rk dflt in
+  let r1 := apply_msg f init (flat_map snd (send_msgs (tL me))) Lsend in
+  if three_step tw then
+    let Spack := all_ranks tw (fun p => dup_combine (tS_dup (nth p rk dflt)) (nth p Gsend [])) in
+    let Ssend := rev_buf wS Spack q in
+    apply_msg f r1 (flat_map snd (send_msgs (tS me))) Ssend
+  else
+    apply_msg f r1 (flat_map snd (send_msgs (tG me))) (nth q Gsend []).
+End Reverse.
+Arguments rev_buf {A}. Arguments pack_pos {A}. Arguments dup_combine {A}. Arguments tap_reverse {A} d f0 v0 {B} f.
+
+(* symbolic transpose run of the node-aware package: slot j of rank p carries the token list [(p, j)];
+   duplicates are combined by concatenation, contributions appended in application order *)
+Definition tap_reverse_sym (tw : tap_world) (buflens : list nat) (n : nat) (q : nat) : list (list (nat * nat)) :=
+  tap_reverse (@nil (nat * nat)) (@app (nat * nat)) [] (@app (nat * nat)) tw
+              (map (map (fun t => [t])) (sym_ys buflens)) (repeat [] n) q.
+Definition tap_rev_ok (tw : tap_world) (ids colmaps : list (list nat)) : bool :=
+  forallb (fun q =>
+    let r := tap_reverse_sym tw (map (@length nat) colmaps) (length (nth q ids [])) q in
+    (length r =? length (nth q ids [])) &&
+    forallb (fun iw => same_pairs (snd iw) (expected_wires colmaps (nth (fst iw) (nth q ids []) 0)))
+            (combine (seq 0 (length r)) r)) (seq 0 (length (t_ranks tw))).
